@@ -19,12 +19,13 @@
    nlinks and links[] are read from the LIVE table at every iteration, as in the C.  Running out of fuel is the
    distinguished outcome None (the C: unbounded recursion).
 
-   Two variants of ADFI_close_file.  Cur = THE CODE AS IT IS NOW (/repo since 909ac4d: the loop over links[] sits inside
+   Two variants.  Cur = THE CODE AS IT IS NOW (/repo since 909ac4d: the loop over links[] sits inside
    "if (index == 0)").  Old = the code before 909ac4d (links[] closed at EVERY close of the linking file), kept so that the
    theorems of Properties_C17.v that end in _old_refuted keep documenting, machine-checked, why it was changed; the check
    runs the Cur variant against the library.  Likewise MCur = cg_open since def473d (a failure behind cgio_open_file
    releases the cgio file and the table entry) and cg_close / cg_open since ecfdd66 (file_number_offset += n_cgns_files),
-   MOld = both before (nothing undone; file_number_offset = n_cgns_files).
+   MOld = both before (nothing undone; file_number_offset = n_cgns_files).  At the cgio level Cur also stands for
+   get_cgnsio since 137980e (a closed slot is refused by the getter, CGIO_ERR_BAD_CGIO), Old for the range-only getter.
    Error codes: 0 stands for NO_ERROR (-1 in ADF.h); the others are the ADF.h numbers. *)
 From Coq Require Import Arith List Bool Lia.
 From CgnsV Require Import Fuel ListX.
@@ -252,7 +253,9 @@ Definition cgio_close_file (v : variant) (fuel : nat) (s : io) (c : nat) : optio
   | S c1 =>
     if length (iol s) <=? c1 then Some (s, RBadCgio) else
     match nth c1 (iol s) None with
-    | None => Some (s, RFileType)
+    | None => Some (s, match v with Cur => RBadCgio | Old => RFileType end)
+        (* a closed slot (type CGIO_FILE_NONE): since /repo 137980e get_cgnsio itself refuses it (CGIO_ERR_BAD_CGIO); before,
+           get_cgnsio tested the range only and the type dispatch of cgio_close_file answered CGIO_ERR_FILE_TYPE *)
     | Some idx =>
         if length (tab (io_adf s)) <=? idx then Some (s, RAdf FILE_INDEX_OUT_OF_RANGE) else
         match adfi_close_file v fuel (io_adf s) idx with
